@@ -312,7 +312,7 @@ pub(crate) mod abi {
         s.0.__bindgen_anon_4.buf_group = e.buf_group;
         s.0.personality = e.personality;
         s.0.__bindgen_anon_5 = libc::io_uring_sqe__bindgen_ty_5 { file_index: e.file_index };
-        s.0.__bindgen_anon_6 = libc::io_uring_sqe__bindgen_ty_6 { optval: std::mem::ManuallyDrop::new(e.addr3) };
+        s.0.__bindgen_anon_6 = libc::io_uring_sqe__bindgen_ty_6 { __bindgen_anon_1: std::mem::ManuallyDrop::new(libc::io_uring_sqe__bindgen_ty_6__bindgen_ty_1 { addr3: e.addr3, __pad2: [0; 1] }) };
         crate::io_uring::sq::verif_sq::sqe_bytes(&s)
     }
 }
